@@ -1,6 +1,7 @@
 package sym
 
 import (
+	"fmt"
 	"go/token"
 	"math"
 )
@@ -54,7 +55,10 @@ func (in *Interp) floatArith(op token.Token, x, y FloatV) Value {
 		case token.MUL:
 			return FloatV{kind: fConst, c: x.c * y.c}
 		case token.QUO:
-			return FloatV{kind: fConst, c: x.c / y.c}
+			if !(isIntegral(x.c) && isIntegral(y.c)) || y.c == 0 || math.Mod(x.c, y.c) == 0 {
+				return FloatV{kind: fConst, c: x.c / y.c}
+			}
+			// integral operands with a non-integral quotient: keep the exact rational (below)
 		}
 	}
 	switch op {
@@ -83,9 +87,10 @@ func (in *Interp) floatArith(op token.Token, x, y FloatV) Value {
 				}
 				return FloatV{kind: fConst, c: math.Inf(-1)}
 			}
-			if a.IsConst() && b.IsConst() {
-				return FloatV{kind: fConst, c: float64(a.SVal()) / float64(b.SVal())}
+			if a.IsConst() && b.IsConst() && a.SVal()%b.SVal() == 0 {
+				return FloatV{kind: fConst, c: float64(a.SVal() / b.SVal())}
 			}
+			// non-integral quotients stay exact rationals (also when both operands are concrete)
 			return FloatV{kind: fQuot, a: a, b: b}
 		}
 	case token.ADD, token.SUB:
@@ -104,8 +109,39 @@ func (in *Interp) floatArith(op token.Token, x, y FloatV) Value {
 }
 
 // floorDiv / ceilDiv on signed 64-bit terms (b != 0 on the path)
+// smallDivisor: when the divisor provably lies in a small positive range and the dividend is provably
+// non-negative, division is expanded into a case split over constant divisors (each decided over the
+// integers) instead of a symbolic bvsdiv.
+func (in *Interp) smallDivisor(a, b *Term, f func(a, k *Term) *Term) (*Term, bool) {
+	if b.IsConst() || in.cfg.NoIntMode {
+		return nil, false
+	}
+	bi := in.mineBounds()
+	iv := in.interval(bi, b)
+	av := in.interval(bi, a)
+	ts := in.ts
+	if iv.ok && iv.lo < 1 && iv.hi >= 1 && iv.hi <= 64 {
+		// the bounds alone do not exclude a non-positive divisor; ask the solver
+		if in.decide(ts.SLT(b, ts.BV(1, 64))) == 0 {
+			iv.lo = 1
+		}
+	}
+	if !iv.ok || !av.ok || iv.lo < 1 || iv.hi-iv.lo > 32 || av.lo < 0 || !small(av) {
+		return nil, false
+	}
+	res := f(a, ts.BV(uint64(iv.hi), 64))
+	for k := iv.hi - 1; k >= iv.lo; k-- {
+		kt := ts.BV(uint64(k), 64)
+		res = ts.Ite(ts.Eq(b, kt), f(a, kt), res)
+	}
+	return res, true
+}
+
 func (in *Interp) floorDiv(a, b *Term) *Term {
 	ts := in.ts
+	if r, ok := in.smallDivisor(a, b, func(a, k *Term) *Term { return ts.SDiv(a, k) }); ok {
+		return r
+	}
 	zero := ts.BV(0, 64)
 	q := ts.SDiv(a, b)
 	r := ts.SRem(a, b)
@@ -115,6 +151,11 @@ func (in *Interp) floorDiv(a, b *Term) *Term {
 
 func (in *Interp) ceilDiv(a, b *Term) *Term {
 	ts := in.ts
+	if r, ok := in.smallDivisor(a, b, func(a, k *Term) *Term {
+		return ts.SDiv(ts.Add(a, ts.Sub(k, ts.BV(1, 64))), k)
+	}); ok {
+		return r
+	}
 	zero := ts.BV(0, 64)
 	q := ts.SDiv(a, b)
 	r := ts.SRem(a, b)
@@ -168,6 +209,9 @@ func (in *Interp) floatToInt(x FloatV, w int, signed bool) Value {
 		return ts.Resize(ts.Mul(x.a, ts.BV(uint64(int64(x.c)), 64)), w, true)
 	case fQuot:
 		// truncation toward zero
+		if r, ok := in.smallDivisor(x.a, x.b, func(a, k *Term) *Term { return ts.SDiv(a, k) }); ok {
+			return ts.Resize(r, w, true)
+		}
 		return ts.Resize(ts.SDiv(x.a, x.b), w, true)
 	}
 	panic(unsupported{"float to int conversion"})
@@ -213,6 +257,15 @@ func (in *Interp) floatCmp(op string, x, y FloatV) *Term {
 			if isIntegral(f.c) {
 				return frac{ts.BV(uint64(int64(f.c)), 64), ts.BV(1, 64)}, true
 			}
+			// a finite double is a dyadic rational m/2^k
+			if !math.IsInf(f.c, 0) && !math.IsNaN(f.c) && math.Abs(f.c) < (1<<20) {
+				for k := 1; k <= 20; k++ {
+					m := f.c * float64(int64(1)<<uint(k))
+					if m == math.Trunc(m) {
+						return frac{ts.BV(uint64(int64(m)), 64), ts.BV(uint64(int64(1)<<uint(k)), 64)}, true
+					}
+				}
+			}
 		case fScaled:
 			return frac{ts.Mul(f.a, ts.BV(uint64(int64(f.c)), 64)), ts.BV(1, 64)}, true
 		}
@@ -221,7 +274,7 @@ func (in *Interp) floatCmp(op string, x, y FloatV) *Term {
 	fx, okx := toFrac(x)
 	fy, oky := toFrac(y)
 	if !okx || !oky {
-		panic(unsupported{"float comparison of unsupported expressions"})
+		panic(unsupported{fmt.Sprintf("float comparison of unsupported expressions: kind %d (c=%v) %s kind %d (c=%v)", x.kind, x.c, op, y.kind, y.c)})
 	}
 	// x.n/x.d ? y.n/y.d  <=>  x.n*y.d ? y.n*x.d  when x.d*y.d > 0, reversed otherwise
 	l := ts.Mul(fx.n, fy.d)
